@@ -8,10 +8,12 @@
 (*          octal (755), t : abstract mtime, c : content id, tgt : raw      *)
 (*          tokens of a link target]                                        *)
 (*                                                                         *)
-(* Owner-permission checks are not modelled (DESIGN 4.2): the replayer runs  *)
-(* privileged, and unprivileged replay is a second concretisation judged    *)
-(* against the same predictions.  NOW is the mtime the kernel gives to      *)
-(* anything touched during the run.                                         *)
+(* Owner-permission checks: Unpriv = FALSE models a privileged caller (no    *)
+(* check ever fails); a cfg may override Unpriv with TRUE, which models an   *)
+(* unprivileged caller that owns every node, so that the owner bits of m     *)
+(* decide (search on every directory traversed, write on the directory an    *)
+(* entry is added to or removed from, read+write on a file opened O_RDWR).   *)
+(* NOW is the mtime the kernel gives to anything touched during the run.    *)
 (***************************************************************************)
 EXTENDS Paths, TLC
 
@@ -23,6 +25,13 @@ FileNode(m, t, c) == [k |-> "f", m |-> m, t |-> t, c |-> c, tgt |-> <<>>]
 LinkNode(tg)      == [k |-> "l", m |-> 777, t |-> NOW, c |-> 0, tgt |-> tg]
 FifoNode(m, t)    == [k |-> "p", m |-> m, t |-> t, c |-> 0, tgt |-> <<>>]
 
+Unpriv == FALSE
+OwnerBit(n, b) == ((n.m \div 100) \div b) % 2 = 1
+CanR(n) == ~Unpriv \/ OwnerBit(n, 4)
+CanW(n) == ~Unpriv \/ OwnerBit(n, 2)
+CanX(n) == ~Unpriv \/ OwnerBit(n, 1)
+DirW(fs, d) == d \notin DOMAIN fs \/ CanW(fs[d])
+
 (* Kernel path resolution from directory cur.  Result classes are the ones  *)
 (* os.IsNotExist / os.IsExist distinguish:                                  *)
 (*   ok        resolved, p is the node                                      *)
@@ -30,11 +39,13 @@ FifoNode(m, t)    == [k |-> "p", m |-> m, t |-> t, c |-> 0, tgt |-> <<>>]
 (*   noentmid  an intermediate component is missing (ENOENT as well)        *)
 (*   notdir    an intermediate component is not a directory (ENOTDIR)       *)
 (*   loop      too many links (ELOOP)                                       *)
+(*   perm      a directory on the way may not be searched (EACCES)          *)
 RECURSIVE Res(_,_,_,_,_)
 Res(fs, cur, toks, fuel, followLast) ==
   IF toks = <<>> THEN [st |-> "ok", p |-> cur]
   ELSE LET h == Head(toks)  t == Tail(toks) IN
     IF h = "" \/ h = "." THEN Res(fs, cur, t, fuel, followLast)
+    ELSE IF cur \in DOMAIN fs /\ ~CanX(fs[cur]) THEN [st |-> "perm", p |-> cur]
     ELSE IF h = ".." THEN Res(fs, Parent(cur), t, fuel, followLast)
     ELSE LET q == Append(cur, h) IN
       IF q \notin DOMAIN fs
@@ -82,7 +93,8 @@ MkdirAll(fs, p) ==
   ELSE LET pr == MkdirAll(fs, Parent(p)) IN
        IF ~pr.ok THEN pr
        ELSE LET r2 == ResAbs(pr.fs, p, FALSE) IN       \* mkdir(2) does not follow the last link
-            IF r2.st = "noent" THEN [ok |-> TRUE, fs |-> AddNode(pr.fs, r2.p, DirNode(755, NOW))]
+            IF r2.st = "noent" /\ ~DirW(pr.fs, Parent(r2.p)) THEN [ok |-> FALSE, fs |-> pr.fs]      \* EACCES
+            ELSE IF r2.st = "noent" THEN [ok |-> TRUE, fs |-> AddNode(pr.fs, r2.p, DirNode(755, NOW))]
             ELSE IF r2.st = "ok" /\ pr.fs[r2.p].k = "d" THEN [ok |-> TRUE, fs |-> pr.fs]
             ELSE [ok |-> FALSE, fs |-> pr.fs]           \* partial effects stay
 
@@ -91,10 +103,19 @@ MkdirAll(fs, p) ==
 Create(fs, p) ==
   LET r == ResAbs(fs, p, TRUE) IN
   IF r.st = "ok" THEN
-       IF fs[r.p].k = "f" THEN [ok |-> TRUE, at |-> r.p, fs |-> [fs EXCEPT ![r.p].c = 0, ![r.p].t = NOW]]
-       ELSE [ok |-> FALSE, at |-> r.p, fs |-> fs]                      \* EISDIR (fifo: excluded from universes)
-  ELSE IF r.st = "noent" THEN [ok |-> TRUE, at |-> r.p, fs |-> AddNode(fs, r.p, FileNode(644, NOW, 0))]
-  ELSE [ok |-> FALSE, at |-> p, fs |-> fs]
+       IF fs[r.p].k = "f" THEN
+            IF CanR(fs[r.p]) /\ CanW(fs[r.p]) THEN [ok |-> TRUE, perm |-> FALSE, at |-> r.p, fs |-> [fs EXCEPT ![r.p].c = 0, ![r.p].t = NOW]]
+            ELSE [ok |-> FALSE, perm |-> TRUE, at |-> r.p, fs |-> fs]                  \* EACCES: O_RDWR on a file the owner bits protect
+       ELSE [ok |-> FALSE, perm |-> FALSE, at |-> r.p, fs |-> fs]       \* EISDIR (fifo: excluded from universes)
+  ELSE IF r.st = "noent" THEN
+       IF DirW(fs, Parent(r.p)) THEN [ok |-> TRUE, perm |-> FALSE, at |-> r.p, fs |-> AddNode(fs, r.p, FileNode(644, NOW, 0))]
+       ELSE [ok |-> FALSE, perm |-> TRUE, at |-> r.p, fs |-> fs]
+  ELSE [ok |-> FALSE, perm |-> r.st = "perm", at |-> p, fs |-> fs]
+
+\* os.Chmod: follows links; errors are the caller's business
+Chmod(fs, p, m) ==
+  LET r == ResAbs(fs, p, TRUE) IN
+  IF r.st = "ok" THEN [fs EXCEPT ![r.p].m = m] ELSE fs
 
 \* os.Chmod + os.Chtimes: both follow links
 ChmodChtimes(fs, p, m, t) ==
@@ -106,7 +127,7 @@ ChmodChtimes(fs, p, m, t) ==
 Symlink(fs, tg, p) ==
   LET r == ResAbs(fs, p, FALSE) IN
   IF tg = <<>> \/ tg = <<"">> THEN [ok |-> FALSE, fs |-> fs]           \* symlink(2): empty target is ENOENT
-  ELSE IF r.st = "noent" THEN [ok |-> TRUE, fs |-> AddNode(fs, r.p, LinkNode(tg))]
+  ELSE IF r.st = "noent" /\ DirW(fs, Parent(r.p)) THEN [ok |-> TRUE, fs |-> AddNode(fs, r.p, LinkNode(tg))]
   ELSE [ok |-> FALSE, fs |-> fs]
 
 \* os.Lstat: the node itself
@@ -122,7 +143,7 @@ Stat(fs, p) ==
 \* os.Remove of a non-directory
 Remove(fs, p) ==
   LET r == ResAbs(fs, p, FALSE) IN
-  IF r.st = "ok" /\ fs[r.p].k # "d" THEN [ok |-> TRUE, fs |-> DelNode(fs, r.p)]
+  IF r.st = "ok" /\ fs[r.p].k # "d" /\ DirW(fs, Parent(r.p)) THEN [ok |-> TRUE, fs |-> DelNode(fs, r.p)]
   ELSE [ok |-> FALSE, fs |-> fs]
 
 \* os.RemoveAll
